@@ -107,12 +107,19 @@ TEXT = {
               COMMON_NOTE + ' Residual, stated in the contract rather than assumed away: connect_uplink draws a random 64-bit conn_id without a collision check, so the "untouched" clauses hold unless a new link drew the id of an existing one. '
               'NOT covered: sync_readers (reader tasks follow the link list), socket identity of survivors (ConnIo is opaque), "applied while packets are in flight" (single call only).',
               'deductive verification (Verus) of the extracted real functions over uninterpreted string / set / socket stubs', 'DESIGN.md 8 C19'),
-    'C16': _t('Kani proves on the real LinkCongestionState (built through a cfg-gated constructor) for EVERY pre-state satisfying wf, every observed rate and every clock value, loop-free (complete, no unwinding bound): '
-              'target in [100 kbit/s, 200 Mbit/s], floor until an RTT sample exists, lowered only in BackingOff or on entry to Drain, wf inductive; loss latch enters only after ewma > 0.55 held 4 s, clears only < 0.25. '
-              'One known finding (re-seed at the floor) is isolated in its own obligation.',
-              'Trusted: Kani+CBMC, exp model (finite, >=0, <=1 for x<=0), no-op tracing shim, modular stub of update_loss_ewma inside tick (frame proved by its own harness). '
-              'x0.85 / x0.75 / <=6% / <=2x numeric clauses are in the thorough tier only if CBMC terminates (float multiplier reasoning).',
-              'Kani complete harnesses (full symbolic pre-state, loop-free) on the real code', 'DESIGN.md 8 C16'),
+    'C16': _t('Two back ends on the same real code. (1) Verus, unit cc: LinkCongestionState::tick, update_backoff_efficacy, pick_climb_mode, record_loss, observe_traffic, evict_expired, loss_permille, '
+              'record_rtt and update_rtt_min are verified against contracts for ALL states, inputs and loss-window lengths (loop invariant, no bound): the next target is the documented function of '
+              '(next state, previous state, climb mode, previous target, outlier-clamped measured rate) -- x850/1000 on a loss back-off but never below the delivered rate nor above the old target, x750/1000 only '
+              'on ENTRY to a drain, growth by the 20/60/40 permille step of the climb mode (<= 6 %) capped at twice the measured rate and none without measured traffic, final clamp to [100 kbit/s, 200 Mbit/s], '
+              'floor + Bootstrap until an RTT sample exists; back-off only with window loss > 5 permille while loaded and not ruled out; fast-recovery budget; the loss latch moves only through update_loss_ewma; '
+              'each helper writes only its own fields (frames), a non-positive / non-finite RTT sample changes nothing, every evicted loss sample leaves with exactly its own contribution. Floats are uninterpreted '
+              'there: the STRUCTURE (which constants, which operations, which operands) is what is proved. Unit ccglue: tick_all feeds each controller its own link\'s signals and drops vanished ones. '
+              '(2) Kani, complete loop-free harnesses over every wf pre-state: the IEEE-level facts -- range, floor until RTT, lowered only in BackingOff / on Drain entry, never raised by a back-off nor cut below the delivered '
+              'rate, loss latch 0.55 / 4 s / 0.25 hysteresis and frame, default state is wf. One known finding (re-seed at the floor) is isolated in its own obligation.',
+              'Trusted: Kani+CBMC, exp model (finite, >=0, <=1 for x<=0), update_loss_ewma as a stub in unit cc and inside the Kani tick harnesses (its frame + hysteresis proved by its own harness), '
+              'axiom: exec == on f64 returns eq_spec; uninterpreted float operations in Verus (that x*850/1000 IS 0.85x up to rounding is not proved: the three exact-factor Kani harnesses do not terminate). '
+              'The seeding rule is specified as the code has it (target on the floor => seed), which includes the recorded known finding; the Kani obligation reports it.',
+              'deductive verification (Verus) of the extracted controller against a structural spec function + Kani complete harnesses for the float facts', 'DESIGN.md 8 C16'),
     'C17': _t('Verus proves on the real 200-line classify (four loops, four hash maps, any number of links, distinct ids): never weak while disconnected; under 100 kbit/s total (float sum as the code adds it) or with no connected link '
               'everything is Bypassed/not weak and all history cleared; a delay verdict needs the streak to have been >= 1 before and >= 2 after; streak/probation follow the exact step relation (<= 14 stored, 15th verdict arms exactly 3 not-weak ticks); '
               'enter threshold 250/n, leave threshold 750/n, LowShare only below the threshold, leaving only at >= 750/n. Verus (unit ccglue, the controller as an opaque type): LinkCcController::tick_all feeds each controller the link\'s own smoothed RTT and only when it is positive, drops the controllers of links that disappeared, and leaves every listed link with a controller and a snapshot.',
